@@ -41,10 +41,33 @@ def strip_comments(text):
     return ''.join(out)
 
 
-def lint():
-    """no Admitted/Axiom/... anywhere in the development (outside comments)"""
+
+
+def cone(rel):
+    """transitive NV-dependencies of coq/<rel> (by its Require lines), including itself"""
+    seen, todo = set(), [rel]
+    while todo:
+        r = todo.pop()
+        if r in seen:
+            continue
+        path = os.path.join(COQ, r)
+        if not os.path.exists(path):
+            continue
+        seen.add(r)
+        with open(path) as f:
+            body = strip_comments(f.read())
+        for m in re.finditer(r'From\s+NV\s+Require\s+(?:Import\s+|Export\s+)?((?:\w+(?:\.\w+)*\s*)+)\.(?=\s)', body):
+            for mod in m.group(1).split():
+                todo.append(mod.replace('.', os.sep) + '.v')
+    return seen
+
+
+def lint(files=None):
+    """no Admitted/Axiom/... in the given files (default: whole development), outside comments"""
     bad = []
-    for path in glob.glob(os.path.join(COQ, '**', '*.v'), recursive=True):
+    paths = ([os.path.join(COQ, f) for f in sorted(files)] if files is not None
+             else glob.glob(os.path.join(COQ, '**', '*.v'), recursive=True))
+    for path in paths:
         with open(path) as f:
             body = strip_comments(f.read())
         for ln, line in enumerate(body.splitlines(), 1):
@@ -171,7 +194,7 @@ def build_props(prop):
                 res['failed'] = (m2.group(1) + ':' + m2.group(2)) if m2 else 'build'
         else:
             res['assumptions'] = print_assumptions(prop, names)
-        bad = lint()
+        bad = lint(cone(os.path.join('Props', prop + '.v')))
         if bad:
             res['ok'] = False
             res['failed'] = 'lint: ' + '; '.join(bad[:5])
